@@ -344,6 +344,9 @@ int main(void)
 			/* p.parse HEX | chunk sizes…   (p.lines: also the unfolded lines the parser acted upon) */
 			int bar = 2;
 			do_parse(toks[1], toks + (ntk > bar ? bar + 1 : ntk), ntk > bar + 1 ? ntk - bar - 1 : 0, 4, !strcmp(toks[0], "p.lines"));
+		} else if (!strcmp(toks[0], "p.occ") && ntk >= 3) {
+			/* p.occ HEX N : the calendar through the whole parser, N occurrences of every task (as p.parse, which gives 4) */
+			do_parse(toks[1], toks + ntk, 0, atoi(toks[2]), 0);
 		} else if (!strcmp(toks[0], "y.snarfshift") && ntk >= 2) {
 			/* y.snarfshift HEX(text behind SHIFT=) : snarf_shift() */
 			static char txt[4096]; size_t len = 0;
